@@ -8,7 +8,7 @@ cd $WT || exit 2
 OUT=/verif/seeded/$NAME; mkdir -p $OUT
 cp seed/patch.diff $OUT/patch.diff; cp seed/demo.rs $OUT/demo.rs; cp seed/README.md $OUT/agent_README.md 2>/dev/null
 git checkout -q -- . ; git apply seed/patch.diff || { echo "patch does not apply"; exit 2; }
-cp seed/demo.rs rust/tests/seed_demo.rs
+mkdir -p rust/tests; cp seed/demo.rs rust/tests/seed_demo.rs
 cd rust
 S1=$(cargo test --offline --lib 2>&1 | grep -E "^test result" | head -1)
 D1=$(cargo test --offline --test seed_demo 2>&1 | grep -E "^test result" | head -1)
